@@ -14,6 +14,8 @@ import PsModel.Store
 import PsModel.NthPrime
 import PsModel.Config
 import PsModel.IteratorC
+import PsModel.Calculator
+import PsModel.CmdLine
 
 open Ps
 
@@ -422,6 +424,67 @@ def cfgLine (op : String) : String :=
     | _, _ => "bad-op"
   | _ => "bad-op"
 
+/-! ### calc / cli streams (C16) -/
+
+def hexVal (c : Char) : Nat :=
+  if '0' ≤ c ∧ c ≤ '9' then c.toNat - 48 else if 'a' ≤ c ∧ c ≤ 'f' then c.toNat - 87 else if 'A' ≤ c ∧ c ≤ 'F' then c.toNat - 55 else 0
+
+def unhex (h : String) : String :=
+  let rec go : List Char → List Char
+    | a :: b :: rest => Char.ofNat (hexVal a * 16 + hexVal b) :: go rest
+    | _ => []
+  String.ofList (go (h.toList.drop 1))     -- first character is the marker 'x'
+
+def calcErrName : Calc.CErr → String
+  | .syntax => "syntax" | .overflow => "overflow" | .divZero => "divZero" | .fuel => "fuel"
+
+/-- `calc <u64|i32|i64> <hex> exp=…` -/
+def calcLine (op : String) : String :=
+  match (op.splitOn " ").filter (· ≠ "") with
+  | ["calc", ty, h, _exp] =>
+    let t := if ty = "u64" then Calc.u64 else if ty = "i32" then Calc.i32 else Calc.i64
+    match Calc.eval (Calc.Arith.ofTy t) (unhex h) with
+    | .ok v => s!"v={v}"
+    | .error e => s!"err={calcErrName e}"
+  | _ => "bad-op"
+
+def summarize (rc : Nat) (lines : List String) : String :=
+  let text := String.join (lines.map (· ++ "\n"))
+  s!"rc={rc} lines={lines.length} fnv={fnv1a text} first={us (lines.headD "-")} last={us (lines.getLastD "-")}"
+
+@[noinline] def cliSieveWithTable (t : ByteArray) (lo hi start stop flags : Nat) (quiet : Bool) : List String :=
+  let isP := tableIsPrime lo hi t
+  let f := Cli.effFlags flags
+  primeSievePrint isP start stop f ++ Cli.countLines flags quiet (primeSieveCounts isP start stop (f % 64))
+
+/-- `cli <hex argv> exp=…` -/
+def cliLine (op : String) : String :=
+  match (op.splitOn " ").filter (· ≠ "") with
+  | ["cli", h, _exp] =>
+    let joined := unhex h
+    let argv := if joined.isEmpty then [] else joined.splitOn "\x1f"
+    match Cli.mainAction argv with
+    | .help1 => "rc=1 other"
+    | .reject _ => summarize 1 []
+    | .other _ => "rc=0 other"
+    | .sieve start stop flags _ _ quiet _ =>
+      if start > stop then summarize 0 (Cli.countLines flags quiet (List.replicate 6 0))
+      else if tableOk start stop then summarize 0 (cliSieveWithTable (segmentTable start stop) start stop start stop flags quiet)
+      else
+        let f := Cli.effFlags flags
+        summarize 0 (primeSievePrint isPrimeMR start stop f ++ Cli.countLines flags quiet (primeSieveCounts isPrimeMR start stop (f % 64)))
+    | .nth n start quiet _ =>
+      let o1 : NthOracle := { piA := fun _ => 0, nthA := fun _ => start, avgGap := avgGapF, isqrt := Nat.sqrt }
+      let r :=
+        if start + 25000000 ≤ 200000000000000 ∧ n ≤ 400000 then
+          let lo := start - min start 25000000
+          nthWithTable (segmentTable lo (start + 25000000)) lo (start + 25000000) (fun _ => 1024) o1 (n : Int) start
+        else nthPrime driverEnv (fun _ => 1024) countFn o1 (n : Int) start
+      match r with
+      | .ok v => summarize 0 [(if quiet then "" else "Nth prime: ") ++ toString v]
+      | .error _ => summarize 1 []
+  | _ => "bad-op"
+
 partial def lineLoop (h : IO.FS.Stream) (f : String → String) : IO Unit := do
   let line ← h.getLine
   if line.isEmpty then return ()
@@ -445,6 +508,8 @@ def main (args : List String) : IO UInt32 := do
     | "cfg" => lineLoop s cfgLine; return 0
     | "multi" => multiLoop s (Array.replicate 8 (Iter.mk' 0 umax)); return 0
     | "iterc" => itercLoop s CIter.init; return 0
+    | "calc" => lineLoop s calcLine; return 0
+    | "cli" => lineLoop s cliLine; return 0
     | "fiter" => fiterLoop s (Iter.mk' 0 umax); return 0
     | "bench" =>
       let n := (← IO.FS.readFile file).trimAscii.toString.toNat?.getD 1000
